@@ -699,4 +699,175 @@ theorem i_overflowingRemEuclid_spec :
 
 end
 end II
+
+namespace II
+open DivL
+
+section
+variable {w n : Nat} {a b : List Nat} (hw : 2 ≤ w) (hn : 1 ≤ n) (hU : UDivSpec w n)
+  (ha : WF w n a) (hb : WF w n b) (hb0 : S w b ≠ 0)
+include hw hn hU ha hb hb0
+
+/-- `wrapping_rem_euclid` is total on non-zero divisors (`MIN % -1 = 0` included) -/
+theorem i_wrappingRemEuclid_spec (dbg : Bool) :
+    ∃ r, wrappingRemEuclid dbg w a b = .ok r ∧ WF w n r ∧ S w r = S w a % S w b := by
+  have hw1 : 1 ≤ w := by omega
+  unfold wrappingRemEuclid
+  by_cases hov : (S w a = -((M w n / 2 : Nat) : Int) ∧ S w b = -1)
+  · unfold overflowingRemEuclid
+    rw [ha.1]; dsimp only
+    rw [isZero_false hb hb0, (ovfGuard_iff hw1 hn ha hb).mpr hov]
+    simp only [Bool.false_eq_true, if_false, if_true, Outcome.map]
+    exact ⟨_, rfl, WF_zero w n, by rw [S_zero, hov.2]; simp⟩
+  · obtain ⟨r, h, wr, sr⟩ := i_overflowingRemEuclid_spec hw hn hU ha hb hb0 hov dbg
+    rw [h]; exact ⟨_, rfl, wr, sr⟩
+
+theorem i_divFloor_spec (hov : ¬ (S w a = -((M w n / 2 : Nat) : Int) ∧ S w b = -1)) (dbg : Bool) :
+    ∃ q, divFloor dbg w a b = .ok q ∧ WF w n q ∧ S w q = (S w a).fdiv (S w b) := by
+  have hw1 : 1 ≤ w := by omega
+  unfold divFloor
+  rw [isZero_false hb hb0]
+  simp only [Bool.false_eq_true, if_false]
+  obtain ⟨q, r, h, wq, wr, sq, sr⟩ := i_divRemUnchecked_spec hw hn hU ha hb hb0 hov dbg
+  rw [h]; simp only
+  rw [fdiv_of_tdiv _ _ hb0, ← sq, ← sr]
+  rw [isNegative_eq_decide hw1 hn ha, isNegative_eq_decide hw1 hn hb]
+  have hz : isZero r = decide (S w r = 0) := bool_eq_decide (isZero_iff_S wr)
+  rw [hz, ha.1]
+  obtain ⟨ba1, -⟩ := S_natAbs_le hw1 hn ha
+  obtain ⟨-, -, f3, -, -, -⟩ := tdiv_facts (S w a) (S w b) hb0
+  obtain ⟨-, g2⟩ := tdiv_sign (S w a) (S w b)
+  rw [← sq, ← sr] at f3
+  rw [← sq] at g2
+  have hM4 := M_ge_four hw hn
+  have hme := M_even hw1 hn
+  have s1 := S_one (n := n) hw hn
+  by_cases nr : S w r = 0
+  · simp only [nr, decide_true, Bool.true_or, if_true, true_or]
+    exact ⟨_, rfl, wq, rfl⟩
+  · by_cases na : S w a < 0 <;> by_cases nb : S w b < 0 <;>
+      simp only [na, nb, nr, decide_true, decide_false, Bool.false_or, beq_self_eq_true, if_true,
+        false_or, iff_self, iff_true, iff_false, not_true, if_false,
+        Bool.false_eq_true, show (true == false) = false from rfl,
+        show (false == true) = false from rfl]
+    · exact ⟨_, rfl, wq, rfl⟩
+    · obtain ⟨d, e1, e2, e3⟩ := iOpSub_ok hw hn wq (WF_one hw1 hn)
+        (by rw [s1]; unfold repS; omega) dbg
+      rw [e1]; exact ⟨_, rfl, e2, by rw [e3, s1]⟩
+    · obtain ⟨d, e1, e2, e3⟩ := iOpSub_ok hw hn wq (WF_one hw1 hn)
+        (by rw [s1]; unfold repS; omega) dbg
+      rw [e1]; exact ⟨_, rfl, e2, by rw [e3, s1]⟩
+    · exact ⟨_, rfl, wq, rfl⟩
+
+theorem i_divCeil_spec (hov : ¬ (S w a = -((M w n / 2 : Nat) : Int) ∧ S w b = -1)) (dbg : Bool) :
+    ∃ q, divCeil dbg w a b = .ok q ∧ WF w n q ∧ S w q = Spec.cdiv (S w a) (S w b) := by
+  have hw1 : 1 ≤ w := by omega
+  unfold divCeil
+  rw [isZero_false hb hb0]
+  simp only [Bool.false_eq_true, if_false]
+  obtain ⟨q, r, h, wq, wr, sq, sr⟩ := i_divRemUnchecked_spec hw hn hU ha hb hb0 hov dbg
+  rw [h]; simp only
+  rw [cdiv_of_tdiv _ _ hb0, ← sq, ← sr]
+  rw [isNegative_eq_decide hw1 hn ha, isNegative_eq_decide hw1 hn hb]
+  have hz : isZero r = decide (S w r = 0) := bool_eq_decide (isZero_iff_S wr)
+  rw [hz, ha.1]
+  obtain ⟨ba1, -⟩ := S_natAbs_le hw1 hn ha
+  obtain ⟨-, -, f3, -, -, -⟩ := tdiv_facts (S w a) (S w b) hb0
+  obtain ⟨g1, -⟩ := tdiv_sign (S w a) (S w b)
+  rw [← sq, ← sr] at f3
+  rw [← sq] at g1
+  have hM4 := M_ge_four hw hn
+  have hme := M_even hw1 hn
+  have s1 := S_one (n := n) hw hn
+  by_cases nr : S w r = 0
+  · simp only [nr, decide_true, Bool.true_or, if_true, true_or]
+    exact ⟨_, rfl, wq, rfl⟩
+  · by_cases na : S w a < 0 <;> by_cases nb : S w b < 0 <;>
+      simp only [na, nb, nr, decide_true, decide_false, Bool.false_or, bne_self_eq_false, if_true,
+        false_or, iff_self, iff_true, iff_false, not_true, not_false_iff, if_false,
+        Bool.false_eq_true, show (true != false) = true from rfl,
+        show (false != true) = true from rfl]
+    · obtain ⟨d, e1, e2, e3⟩ := iOpAdd_ok hw hn wq (WF_one hw1 hn)
+        (by rw [s1]; unfold repS; omega) dbg
+      rw [e1]; exact ⟨_, rfl, e2, by rw [e3, s1]⟩
+    · exact ⟨_, rfl, wq, rfl⟩
+    · exact ⟨_, rfl, wq, rfl⟩
+    · obtain ⟨d, e1, e2, e3⟩ := iOpAdd_ok hw hn wq (WF_one hw1 hn)
+        (by rw [s1]; unfold repS; omega) dbg
+      rw [e1]; exact ⟨_, rfl, e2, by rw [e3, s1]⟩
+
+theorem i_nextMultipleOf_spec (hrep : repS (M w n) (Spec.nextMultiple (S w a) (S w b)))
+    (dbg : Bool) :
+    ∃ r, nextMultipleOf dbg w a b = .ok r ∧ WF w n r ∧
+      S w r = Spec.nextMultiple (S w a) (S w b) := by
+  have hw1 : 1 ≤ w := by omega
+  unfold nextMultipleOf
+  obtain ⟨r, h, wr, sr⟩ := i_wrappingRemEuclid_spec hw hn hU ha hb hb0 dbg
+  rw [h]; simp only
+  rw [nextMultiple_eq _ _ hb0, ← sr] at hrep ⊢
+  have hz : isZero r = decide (S w r = 0) := bool_eq_decide (isZero_iff_S wr)
+  rw [hz, isNegative_eq_decide hw1 hn wr, isNegative_eq_decide hw1 hn hb]
+  have hnn : 0 ≤ S w r := by rw [sr]; exact Int.emod_nonneg _ hb0
+  have hlt : S w r < (S w b).natAbs := by rw [sr]; have := Int.emod_lt (S w a) hb0; omega
+  have rb := S_repS hw1 hn hb
+  unfold repS at rb
+  have hme := M_even hw1 hn
+  by_cases nr : S w r = 0
+  · simp only [nr, decide_true, if_true]
+    exact ⟨_, rfl, ha, rfl⟩
+  · have nrn : ¬ S w r < 0 := by omega
+    simp only [nr, nrn, decide_false, Bool.false_eq_true, if_false] at hrep ⊢
+    by_cases nb : S w b < 0
+    · have pb : ¬ 0 < S w b := by omega
+      simp only [nb, pb, decide_true, if_false, show (false == true) = false from rfl,
+        Bool.false_eq_true] at hrep ⊢
+      obtain ⟨d, e1, e2, e3⟩ := iOpSub_ok hw hn ha wr hrep dbg
+      exact ⟨_, e1, e2, e3⟩
+    · have pb : 0 < S w b := by omega
+      simp only [nb, pb, decide_false, if_true, beq_self_eq_true] at hrep ⊢
+      obtain ⟨s, c1, c2, c3⟩ := iOpSub_ok hw hn hb wr (by unfold repS; omega) dbg
+      rw [c1]; simp only
+      obtain ⟨d, e1, e2, e3⟩ := iOpAdd_ok hw hn ha c2 (by rw [c3]; exact hrep) dbg
+      exact ⟨_, e1, e2, by rw [e3, c3]⟩
+
+theorem i_checkedNextMultipleOf_spec (dbg : Bool) :
+    ∃ o, checkedNextMultipleOf dbg w a b = .ok o ∧
+      (o = none ↔ ¬ repS (M w n) (Spec.nextMultiple (S w a) (S w b))) ∧
+      (∀ r, o = some r → WF w n r ∧ S w r = Spec.nextMultiple (S w a) (S w b)) := by
+  have hw1 : 1 ≤ w := by omega
+  unfold checkedNextMultipleOf
+  rw [isZero_false hb hb0]
+  simp only [Bool.false_eq_true, if_false]
+  obtain ⟨r, h, wr, sr⟩ := i_wrappingRemEuclid_spec hw hn hU ha hb hb0 dbg
+  rw [h]; simp only
+  rw [nextMultiple_eq _ _ hb0, ← sr]
+  have hz : isZero r = decide (S w r = 0) := bool_eq_decide (isZero_iff_S wr)
+  rw [hz, isNegative_eq_decide hw1 hn wr, isNegative_eq_decide hw1 hn hb]
+  have hnn : 0 ≤ S w r := by rw [sr]; exact Int.emod_nonneg _ hb0
+  have hlt : S w r < (S w b).natAbs := by rw [sr]; have := Int.emod_lt (S w a) hb0; omega
+  have rb := S_repS hw1 hn hb
+  unfold repS at rb
+  have hme := M_even hw1 hn
+  by_cases nr : S w r = 0
+  · simp only [nr, decide_true, if_true]
+    refine ⟨_, rfl, ?_, ?_⟩
+    · simp; exact S_repS hw1 hn ha
+    · intro r' hr'; cases hr'; exact ⟨ha, rfl⟩
+  · have nrn : ¬ S w r < 0 := by omega
+    simp only [nr, nrn, decide_false, Bool.false_eq_true, if_false]
+    by_cases nb : S w b < 0
+    · have pb : ¬ 0 < S w b := by omega
+      simp only [nb, pb, decide_true, if_false, show (false == true) = false from rfl,
+        Bool.false_eq_true]
+      exact ⟨_, rfl, (II.overflowingSub_spec hw hn ha wr).checked⟩
+    · have pb : 0 < S w b := by omega
+      simp only [nb, pb, decide_false, if_true, beq_self_eq_true]
+      obtain ⟨c2, c3⟩ := wrappingSub_spec hb wr
+      rw [wrapS_of_rep (M_pos w n) (by unfold repS; omega)] at c3
+      have := (II.overflowingAdd_spec hw hn ha c2).checked
+      rw [c3] at this
+      exact ⟨_, rfl, this⟩
+
+end
+end II
 end Bnum
